@@ -1,6 +1,7 @@
 package wasp
 
 import (
+	"sync"
 	"time"
 
 	"github.com/vx-labs/wasp/v4/wasp/distributed"
@@ -16,6 +17,8 @@ type nodeMemberManager struct {
 	id    uint64
 	log   messageLog
 	state distributed.State
+	mtx   sync.Mutex
+	joins map[uint64]uint64
 }
 
 func NewNodeMemberManager(id uint64, log messageLog, state distributed.State) NodeMemberManager {
@@ -23,10 +26,15 @@ func NewNodeMemberManager(id uint64, log messageLog, state distributed.State) No
 		id:    id,
 		log:   log,
 		state: state,
+		joins: map[uint64]uint64{},
 	}
 }
 
-func (n *nodeMemberManager) NotifyGossipJoin(id uint64) {}
+func (n *nodeMemberManager) NotifyGossipJoin(id uint64) {
+	n.mtx.Lock()
+	n.joins[id]++
+	n.mtx.Unlock()
+}
 func (n *nodeMemberManager) NotifyGossipLeave(id uint64) {
 	n.state.Subscriptions().DeletePeer(id)
 	lost := n.state.SessionMetadatas().ByPeer(id)
@@ -39,8 +47,21 @@ func (n *nodeMemberManager) NotifyGossipLeave(id uint64) {
 			n.log.Append(&lwt)
 		}
 	}
+	n.mtx.Lock()
+	joins := n.joins[id]
+	n.mtx.Unlock()
 	go func() {
 		<-time.After(3 * time.Second)
+		n.mtx.Lock()
+		back := n.joins[id] != joins
+		n.mtx.Unlock()
+		if back {
+			// the peer has joined again meanwhile: the sessions it has accepted since are not lost
+			for _, session := range lost {
+				n.state.SessionMetadatas().Delete(session.SessionID)
+			}
+			return
+		}
 		n.state.SessionMetadatas().DeletePeer(id)
 	}()
 }
